@@ -14,32 +14,45 @@ BASE = dict(
     TickW=2, ProcW=3,
 )
 
-# exhaustive families: name -> overrides (quick) ; "thorough" overrides applied on top
+# exhaustive families: name -> overrides of BASE for the quick tier; the thorough tier runs the quick configuration AND
+# every configuration of "thorough" (overrides on top of the quick ones), one TLC run each.  Sizes were measured on this
+# machine (16 workers, StateDeque): distinct states / wall time are noted; configurations that did not finish in 10
+# minutes are not used.
+COMPS_KINDS = ["Join", "EntityAdd", "EntityDelete", "TypeAdd", "CompAdd", "CompDelete", "CompList", "Sub", "Unsub"]
 FAMILIES = {
-    "core": dict(quick=dict(), thorough=dict(Conns=[1, 2, 3], MaxPid=3)),
-    "ids": dict(quick=dict(Kinds=["Join", "EntityAdd", "EntityDelete"], Opens=True, MaxU=3, MaxEid=1, JoinSids=[0, 1, 2]),
-                thorough=dict(Conns=[1, 2, 3], MaxPid=3, MaxU=3)),
+    "core": dict(quick=dict(),                                                                  # 12.5 k / 15 s
+                 thorough=[dict(Opens=True, MaxU=3),                                            # 250 k / 2-8 min
+                           dict(Conns=[1, 2, 3], MaxPid=3, Kinds=["Join", "EntityAdd", "EntityDelete"], MaxSid=1, MaxU=1,
+                                JoinSids=[0, 1], MaxEid=1)]),                                   # 3 connections: 2 k / 6 s
+    "ids": dict(quick=dict(Kinds=["Join", "EntityAdd", "EntityDelete"], Opens=True, MaxU=3, MaxEid=1, JoinSids=[0, 1, 2]),   # 23 k / 44 s
+                thorough=[dict(MaxU=4, MaxSid=3, JoinSids=[0, 1, 2, 3]),                        # 115 k / 3 min
+                          dict(Conns=[1, 2, 3], MaxPid=3, Kinds=["Join"], MaxEid=1)]),          # 3 connections: 15 k / 45 s
     "pose": dict(quick=dict(Kinds=["Join", "EntityAdd", "EntityDelete", "Pose"], MaxSid=1, MaxU=1, JoinSids=[0, 1],
-                            MaxEid=1, PxVals=[2], MaxQ=1),
-                 thorough=dict(PxVals=[2, 3], MaxQ=2)),
-    "comps": dict(quick=dict(Kinds=["Join", "EntityAdd", "EntityDelete", "TypeAdd", "CompAdd", "CompDelete", "CompList", "Sub", "Unsub"],
-                             MaxSid=1, MaxU=1, JoinSids=[0, 1], MaxEid=1, DataVals=[1]),
-                  thorough=dict(Kinds=["Join", "EntityAdd", "EntityDelete", "TypeAdd", "GetName", "GetId", "CompAdd", "CompDelete", "CompUpdate",
-                                       "CompList", "Sub", "Unsub"], DataVals=[1, 2])),
+                            MaxEid=1, PxVals=[2], MaxQ=1),                                      # 154 k / 60 s
+                 thorough=[]),
+    "comps": dict(quick=dict(Kinds=COMPS_KINDS, MaxSid=1, MaxU=1, JoinSids=[0, 1], MaxEid=1, DataVals=[1]),                 # 2.8 k
+                  thorough=[]),
     "mods": dict(quick=dict(Kinds=["Join", "EntityAdd", "EntityDelete", "Action", "AssetAdd"], MaxSid=1, MaxU=1, JoinSids=[0, 1],
-                            MaxEid=1, AtsVals=[1, 2], MaxAid=2),
-                 thorough=dict(MaxEid=2, MaxSid=2, MaxU=2, JoinSids=[0, 1, 2])),
+                            MaxEid=1, AtsVals=[1, 2], MaxAid=2, DataVals=[1, 2]),               # equal timestamps, other data
+                 thorough=[dict(MaxEid=2),                                                      # 19 k / 84 s
+                           dict(MaxSid=2, MaxU=2, JoinSids=[0, 1, 2])]),                        # 27 k / 50 s
     "custom": dict(quick=dict(Conns=[1, 2, 3], MaxPid=3, Kinds=["Join", "Custom"], MaxSid=1, MaxU=1, JoinSids=[0, 1],
-                              Lens=[10240, 10241], ToLists="ToListsFull"),
-                   thorough=dict(MaxSid=2, MaxU=2, JoinSids=[0, 1, 2], Lens=[0, 10240, 10241])),
+                              Lens=[10240, 10241], ToLists="ToListsFull"),                      # 0.4 k
+                   thorough=[dict(Lens=[0, 10240, 10241]),                                      # 0.4 k
+                             dict(MaxSid=2, MaxU=2, JoinSids=[0, 1, 2])]),                      # 4.8 k / 19 s
 }
 
 
-def consts(fam, tier, **over):
+def thorough_variants(fam):
+    return list(FAMILIES[fam]["thorough"])
+
+
+def consts(fam, tier, variant=None, **over):
+    """constants of family `fam`: the quick configuration, plus thorough variant number `variant` when given"""
     c = dict(BASE)
     c.update(FAMILIES[fam]["quick"])
-    if tier == "thorough":
-        c.update(FAMILIES[fam]["thorough"])
+    if variant is not None:
+        c.update(FAMILIES[fam]["thorough"][variant])
     c.update(over)
     return c
 
@@ -58,8 +71,8 @@ def render(c):
     return "\n".join(lines) + "\n"
 
 
-def mc_cfg(fam, tier, props, **over):
-    return ("SPECIFICATION MCSpec\n" + render(consts(fam, tier, **over)) +
+def mc_cfg(fam, tier, props, variant=None, **over):
+    return ("SPECIFICATION MCSpec\n" + render(consts(fam, tier, variant, **over)) +
             "VIEW MCView\nINVARIANT WellFormed\nPROPERTIES " + " ".join(props) + "\nCHECK_DEADLOCK FALSE\n")
 
 
